@@ -951,6 +951,33 @@ pub fn scale_family(thorough: bool) -> Vec<(String, &'static str, Vec<String>)> 
         out.push(("\\bfoo\\b".into(), "i", vec![format!("{} FOO {}foo", "é ".repeat(n), "x".repeat(n))]));
         out.push(("(.)\\1".into(), "is", vec![format!("{}aA", "ab".repeat(n)), format!("{}{}k", "é".repeat(n), '\u{212A}')]));
     }
+    out.extend(scale_family_fixed());
+    out
+}
+
+/// The part of the size-parameterised families that does not scale with n (also used by C15's quick tier and C12).
+pub fn scale_family_fixed() -> Vec<(String, &'static str, Vec<String>)> {
+    let mut out: Vec<(String, &'static str, Vec<String>)> = Vec::new();
+    // a quantified body nested just below / above 100 levels (the duplication depth limit of loop unrolling)
+    for n in [98usize, 99, 100, 101, 102, 110, 125] {
+        let mut body = String::from("y");
+        for _ in 0..n {
+            body = format!("(?:q|{})", body);
+        }
+        let body = format!("(?:x|{})", body);
+        out.push((format!("^{}{{2}}$", body), "", vec!["".into(), "xy".into(), "xq".into(), "x".into(), "xyq".into()]));
+        out.push((format!("{}{{2,}}z", body), "", vec!["zxxz".into(), "xz".into(), "qyxz".into()]));
+        out.push((format!("{}+?z", body), "", vec!["zxyz".into(), "z".into()]));
+    }
+    // every kind of group opener before a group and a numeric / named reference just at or above the real group
+    // count (the pre-scan that counts groups must read openers exactly as the parser does)
+    for opener in ["(?:x)", "(?=x)", "(?!y)", "(?<=^)", "(?<!y)", "(?i:x)", "(?-i:x)", "(?s:.)", "(?m-s:x)", "(?<g>x)", "(x)", "[(]", "[[](x)", "\\(", "(?:(?i:x))"] {
+        for tail in ["\\1", "\\2", "(b)\\1", "(b)\\2", "(b)\\3", "(?<n>b)\\k<n>", "(?<n>b)\\1\\2", "](b)\\2", "\\k<n>(?<n>b)"] {
+            for fl in ["", "u", "i"] {
+                out.push((format!("{}{}", opener, tail), fl, vec!["xb\u{1}".into(), "xbb".into(), "Xbb".into(), "xx".into(), "[xx".into(), "[x]bb".into(), "(b\u{2}".into(), "x]bb".into(), "xb\u{2}".into(), "xbxb".into(), "xk<n>b".into(), "".into()]));
+            }
+        }
+    }
     // classes of many disjoint ASCII intervals (alternate letters: 26 intervals; alternate printable characters:
     // 47), plain, negated and with one non-ASCII member, against every printable ASCII character
     {
@@ -1026,6 +1053,10 @@ pub fn run(run: &mut Run, prop: Prop, profile_names: &[&str]) -> Stats {
         let n = if thorough { if prop == Prop::C01 { 5 } else { 4 } } else { if prop == Prop::C01 { 4 } else { 3 } };
         let t = drive_tokens(run, prop.id(), n, &|ast, pat, f, hays, known, st| eval_pattern_text(&cfg, ast, pat, f, hays, known, st));
         total = total.merge(t);
+        if prop == Prop::C01 {
+            let t = drive_focus(run, prop.id(), if thorough { 9 } else { 8 }, &|ast, pat, f, hays, known, st| eval_pattern_text(&cfg, ast, pat, f, hays, known, st));
+            total = total.merge(t);
+        }
     }
     if std::env::var("VERIF_PROFILES").map(|v| v.is_empty() || v.contains("scale")).unwrap_or(true) {
         let fam = scale_family(thorough);
@@ -1044,7 +1075,7 @@ pub fn run(run: &mut Run, prop: Prop, profile_names: &[&str]) -> Stats {
                 let hays: Vec<Hay> = hs.iter().filter(|h| prop != Prop::C13 || h.is_ascii()).map(|h| Hay::new(h.chars().map(|c| c as u32).collect())).collect();
                 match crate::refparse::parse(&pat, fl) {
                     Ok(ast) => eval_pattern_text(cfg, &ast, pat, fl, &hays, known, &mut st),
-                    Err(e) => st.error(format!("scale family pattern /{}/{} is outside the reference grammar: {}", p.chars().take(60).collect::<String>(), f, e)),
+                    Err(_) => st.add("patterns_outside_language", 1), // acceptance is C08's matter
                 }
                 st
             })
@@ -1231,6 +1262,44 @@ pub fn drive(run: &mut Run, pid: &str, profile_names: &[&str], hays_fn: HaysFn, 
     }
     run.extra.push(("profiles".into(), J::Arr(per_profile)));
     total
+}
+
+/// Focused token strings read semantically (C01): every string over {[ ] ( ) a \ 1} up to a length bound that
+/// contains a group and a backslash (the pre-scan that counts groups decides how \1 is read: backreference or
+/// legacy octal escape) and that the reference parser accepts, against every haystack over {a [ ] U+0001}.
+pub fn drive_focus(run: &mut Run, pid: &str, max_len: usize, eval: &(dyn Fn(&Node, Vec<u32>, Flags, &[Hay], &Known, &mut Stats) + Sync)) -> Stats {
+    use crate::refparse;
+    let toks: Vec<u32> = "[]()a\\1".chars().map(|c| c as u32).collect();
+    let total = crate::c08::total_strings(toks.len() as u64, max_len);
+    let hays = enumerate::all_hays(&[0x61, 0x5B, 0x5D, 0x1], 3);
+    let chunk = 4096u64;
+    let nchunks = (total + chunk - 1) / chunk;
+    let known = &run.known;
+    let t0 = std::time::Instant::now();
+    let st = (0..nchunks)
+        .into_par_iter()
+        .fold(Stats::default, |mut st, ci| {
+            for idx in ci * chunk..((ci + 1) * chunk).min(total) {
+                let pat = crate::c08::token_string(&toks, idx);
+                if pat.len() < 5 || !pat.contains(&0x28) || !pat.contains(&0x5C) || !pat.contains(&0x5B) {
+                    continue;
+                }
+                for f in ["", "u"] {
+                    let fl = Flags::parse(f);
+                    st.add("patterns_generated", 1);
+                    let Ok(ast) = refparse::parse(&pat, fl) else {
+                        st.add("patterns_outside_language", 1);
+                        continue;
+                    };
+                    eval(&ast, pat.clone(), fl, &hays, known, &mut st);
+                }
+            }
+            st
+        })
+        .reduce(Stats::default, Stats::merge);
+    println!("  {} focused token strings <= {}: evaluated={} cases={} violations={} ({:.1}s)", pid, max_len, st.get("patterns_evaluated"), st.get("evaluations"), st.total_violations(), t0.elapsed().as_secs_f64());
+    run.extra.push(("focused_token_strings".into(), J::obj().set("alphabet", J::s("[ ] ( ) a \\ 1")).set("max_length", J::u(max_len as u64)).set("patterns_evaluated", J::u(st.get("patterns_evaluated"))).set("evaluations", J::u(st.get("evaluations")))));
+    st
 }
 
 /// Token-string patterns: every string over the token alphabet up to a length bound that the
